@@ -21,7 +21,7 @@ RULE = ("subject = transform family x configuration x moderate parameter policy 
         "non-trivial when float32 and float64 results differ at all (the comparison is not between identical numbers)")
 ASSUMPTIONS = ["bound: 64 eps32 (1+|ref|) + 16 eps32 |J|_inf (1+|x|) for outputs; 64 eps32 D (1+|ref|) + 16 eps32 S (1+|x|) for log-dets, "
                "J and S (sensitivity of the log-det) measured on the float64 twin", "items whose float64 Jacobian has cond > 1e6 are skipped (counted)"]
-REQUIRED_COUNTS = ["twin_items", "dtype_checks", "spline_points"]
+REQUIRED_COUNTS = ["twin_items", "dtype_checks", "spline_points", "wide_linear_items", "late_conversion_checks"]
 BUDGET = {"case_timeout": {"quick": 400, "thorough": 3000}}
 E32 = 1.1920929e-07
 
@@ -43,6 +43,10 @@ def gen_cases(tier, seed):
     for i in range(20 if tier == "quick" else 600):
         cases.append({"kind": "flow", "cfg": dzoo.sample_flow_cfg(rng), "seed": env.subseed(seed, "c19f", i), "world": "f32",
                       "cost": 3})
+    # wide linear layers (a product of a few hundred diagonal entries leaves the float32 range; its log does not)
+    for i, fam in enumerate(["lu", "qr", "svd", "naive", "conv"] * (1 if tier == "quick" else 8)):
+        cases.append({"kind": "wide_linear", "family": fam, "features": [256, 192, 300, 512][(i // 5 + i) % 4],
+                      "seed": env.subseed(seed, "c19w", i), "world": "f32", "cost": 4})
     npts = 2000 if tier == "quick" else 100000
     for fam in ("linear", "quadratic", "cubic", "rq"):
         for ps in (0.3, 1.0, 1.5):
@@ -233,6 +237,8 @@ def run_case(case):
         compare_items(r, "batchnorm(eval after train)", "forward", m, m64, x, None, det)
         r.sample({"bn_train": det})
         return r.done()
+    if kind == "wide_linear":
+        return run_wide(r, case)
     try:
         if kind == "zoo":
             cfg = case["cfg"]
@@ -309,7 +315,115 @@ def run_case(case):
                     r.cell(label, "inverse", case["policy"], "img" if len(me["shape"]) == 3 else "2d")
         except Exception:
             r.count("inverse_setup_raised")
+    # conversion AFTER use: a model that has been evaluated in float32 and is then converted with .double() must behave
+    # like the twin that was converted before its first call (anything memoised in the dtype of the first call shows here)
+    try:
+        late = copy.deepcopy(model).double()
+        late.train(model.training)
+        c64 = ctx.double() if ctx is not None else None
+        with torch.no_grad():
+            oL, lL = late(x.double(), c64)
+            oR, lR = m64(x.double(), c64)
+        r.ev()
+        r.count("late_conversion_checks")
+        dtype_clause(r, label, "forward outputs after .double() of a used model", oL, torch.float64, det)
+        dtype_clause(r, label, "forward logabsdet after .double() of a used model", lL, torch.float64, det)
+        if torch.isfinite(oR).all() and torch.isfinite(lR).all():
+            eo = float((oL.double() - oR).abs().max() / (1 + oR.abs().max()))
+            el = float((lL.double() - lR).abs().max() / (1 + lR.abs().max()))
+            r.worst("late_conversion_err/1e-10", max(eo, el) / 1e-10)
+            if max(eo, el) > 1e-10 and "umnn" not in me["tags"]:
+                r.viol("late_conversion", "%s converted with .double() after a float32 call keeps single-precision state" % label,
+                       out_err=eo, lad_err=el, **det)
+        back = copy.deepcopy(late).float()
+        back.train(model.training)
+        with torch.no_grad():
+            oB, lB = back(x, ctx)
+        dtype_clause(r, label, "forward outputs after .float() of a used float64 model", oB, torch.float32, det)
+        dtype_clause(r, label, "forward logabsdet after .float() of a used float64 model", lB, torch.float32, det)
+    except Exception as e:
+        r.count("late_conversion_raised")
     r.sample({"family": label, "policy": case["policy"], "x0": x[0].reshape(-1)[:5]})
+    return r.done()
+
+
+def run_wide(r, case):
+    from nflows import transforms as T
+    fam, D, seed = case["family"], case["features"], case["seed"]
+    g = torch.Generator().manual_seed(seed)
+    torch.manual_seed(seed)
+
+    def un(n, lo=-2.0, hi=1.0):
+        return lo + (hi - lo) * torch.rand(n, generator=g)
+    if fam == "lu":
+        m = T.LULinear(D, identity_init=True)
+        with torch.no_grad():
+            m.unconstrained_upper_diag.copy_(un(D))
+            m.lower_entries.copy_(0.02 * torch.randn(m.lower_entries.shape, generator=g))
+            m.upper_entries.copy_(0.02 * torch.randn(m.upper_entries.shape, generator=g))
+    elif fam == "qr":
+        m = T.QRLinear(D, num_householder=4)
+        with torch.no_grad():
+            m.log_upper_diag.copy_(un(D, -1.0, 0.3))
+            m.upper_entries.copy_(0.02 * torch.randn(m.upper_entries.shape, generator=g))
+    elif fam == "svd":
+        m = T.SVDLinear(D, num_householder=4)
+        with torch.no_grad():
+            m.unconstrained_diagonal.copy_(un(D))
+    elif fam == "naive":
+        m = T.NaiveLinear(D)
+        with torch.no_grad():
+            m._weight.mul_(torch.exp(un(D, -1.0, 0.3))[:, None])
+    else:
+        m = T.OneByOneConvolution(D, identity_init=True)
+        with torch.no_grad():
+            m.unconstrained_upper_diag.copy_(un(D))
+            m.lower_entries.copy_(0.02 * torch.randn(m.lower_entries.shape, generator=g))
+            m.upper_entries.copy_(0.02 * torch.randn(m.upper_entries.shape, generator=g))
+    with torch.no_grad():
+        m.bias.copy_(torch.randn(D, generator=g))
+    m.eval()
+    m64 = twin(m)
+    x = torch.randn(4, D, generator=g) if fam != "conv" else torch.randn(3, D, 2, 1, generator=g)
+    det = dict(family=fam, features=D)
+    label = "wide_" + fam
+    for direction in ("forward", "inverse"):
+        try:
+            with torch.no_grad():
+                o64, l64 = (m64.forward if direction == "forward" else m64.inverse)(x.double())
+                o32, l32 = (m.forward if direction == "forward" else m.inverse)(x)
+        except Exception as e:
+            r.ev()
+            r.viol("raises_in_float32", "%s.%s raises" % (label, direction), exc=repr(e)[:200], **det)
+            continue
+        r.ev(x.shape[0])
+        r.count("twin_items", x.shape[0])
+        r.count("wide_linear_items", x.shape[0])
+        dtype_clause(r, label, direction + " outputs (float32 inputs)", o32, torch.float32, det)
+        dtype_clause(r, label, direction + " logabsdet (float32 inputs)", l32, torch.float32, det)
+        if not (torch.isfinite(o64).all() and torch.isfinite(l64).all()):
+            r.count("twin_nonfinite")
+            continue
+        if not (torch.isfinite(o32).all() and torch.isfinite(l32).all()):
+            r.viol("nonfinite_in_float32", "%s.%s returns non-finite numbers in float32 (finite in float64)" % (label, direction),
+                   logabsdet_f32=l32.tolist()[:3], logabsdet_f64=l64.tolist()[:3], **det)
+            continue
+        n_pix = 2 if fam == "conv" else 1
+        le = float((l32.double() - l64).abs().max())
+        allowed_l = 64 * E32 * n_pix * (D + float(l64.abs().max()))
+        oe = float((o32.double() - o64).abs().max())
+        allowed_o = 256 * E32 * D ** 0.5 * (1 + float(o64.abs().max())) * (30.0 if direction == "inverse" else 1.0)
+        r.worst("wide_lad_err/allowed", le / allowed_l)
+        r.worst("wide_out_err/allowed", oe / allowed_o)
+        if le > allowed_l:
+            r.viol("logabsdet_disagrees", "%s.%s float32 logabsdet disagrees with the float64 twin" % (label, direction),
+                   err=le, allowed=allowed_l, f64=float(l64[0]), **det)
+        if oe > allowed_o:
+            r.viol("outputs_disagree", "%s.%s float32 outputs disagree with the float64 twin" % (label, direction),
+                   err=oe, allowed=allowed_o, **det)
+        if le > 0 or oe > 0:
+            r.cell(label, direction, D)
+    r.sample({"wide_linear": det})
     return r.done()
 
 
